@@ -48,7 +48,18 @@ pub fn classify(r: &Result<BootInformation, LoadError>) -> Spec {
 // @bound 64-byte object, declared total_size symbolic in 0..=64 (all residues), reserved word and all contents symbolic
 #[cfg_attr(kani, kani::proof)]
 pub fn c02_load_le64() {
-    const N: usize = 64;
+    load_le::<64>();
+}
+
+// @harness props=C02 tier=thorough panic=forbid timeout=1800
+// @encodes as c02_load_le64
+// @bound 136-byte object, declared total_size symbolic in 0..=136
+#[cfg_attr(kani, kani::proof)]
+pub fn c02_load_le136() {
+    load_le::<136>();
+}
+
+fn load_le<const N: usize>() {
     let b = Aligned::<N>::any();
     let total = le32(&b.0, 0);
     nd::assume(total as usize <= N);
